@@ -167,8 +167,31 @@ def _cells(rng, L):
     return rng.choice(list(range(1, 3 * L + 2)))
 
 
+def wide_mech(rng, nspec, nrxn):
+    """more than 255 species and reactions (ids, counts and offsets that do not fit one byte), every species used"""
+    names = list(range(1000, 1000 + nspec))
+    idx = list(range(nspec))
+    rng.shuffle(idx)
+    vmap = list(zip(names, idx))
+    rxns = []
+    for r in range(nrxn):
+        reactants = [(names[(r * 7 + j * 13) % nspec], 0) for j in range(rng.choice([1, 2, 2, 3]))]
+        products = [(names[(r * 11 + 5 + j * 17) % nspec], 0, rng.choice([8, 4, 2, 12, 16])) for j in range(rng.choice([1, 2]))]
+        rxns.append((reactants, products))
+    return nspec, vmap, rxns
+
+
 def gen_forcing(rng, tier, count=None):
     out = []
+    if count is None:
+        for L in (0, 4):
+            ncells = 3 if L == 0 else 5
+            nspec, vmap, rxns = wide_mech(rng, 300, 320)
+            rc = [rng.randrange(0, 4) for _ in range(ncells * len(rxns))]
+            y = [rng.randrange(-1, 4) for _ in range(ncells * nspec)]
+            f = [rng.randrange(-2, 3) for _ in range(ncells * nspec)]
+            t = [L, ncells, nspec, 9] + mech_tokens(vmap, rxns) + rc + y + f
+            out.append("forcing " + " ".join(map(str, t)))
     for k in range(count or vol(tier, 1500, 40000)):
         L = rng.choice([0, 1, 2, 3, 4, 5, 0, 1, 2, 3, 4, 5, 6, 7, 8])
         ncells = _cells(rng, L)
@@ -184,6 +207,14 @@ def gen_forcing(rng, tier, count=None):
 
 def gen_jacobian(rng, tier, count=None):
     out = []
+    if count is None:
+        for L, csc in ((0, 0), (4, 1)):
+            ncells = 2 if L == 0 else 5
+            nspec, vmap, rxns = wide_mech(rng, 300, 320)
+            rc = [rng.randrange(0, 4) for _ in range(ncells * len(rxns))]
+            y = [rng.randrange(-1, 4) for _ in range(ncells * nspec)]
+            t = [L, csc, ncells, nspec, 9] + mech_tokens(vmap, rxns) + rc + y + [0]
+            out.append("jacobian " + " ".join(map(str, t)))
     for k in range(count or vol(tier, 1500, 40000)):
         L = rng.choice([0, 1, 2, 3, 4, 5, 0, 1, 2, 3, 4, 5, 6, 7, 8])
         csc = rng.randrange(2)
